@@ -24,7 +24,10 @@ def generate(prop, seed, tier):
     op = dict(op="run", cfg=cfg)
     if rng.random() < 0.25:
         op["faults"] = dict(calls=worldgen.gen_call_faults(rng, world, p_fail=0.15, excs=("E1", "B1")))
-    return dict(seed=seed, world=world, ops=[op], sched=sc, tier=tier, registry=registry)
+    # k counts call starts, or (registry worlds, half of them) every operation start: modified-time queries of the
+    # stale check, store reads and writes, calls - the interrupt then also lands in the stale-check pool and in store writes
+    k_mode = "op" if registry and rng.random() < 0.5 else "call"
+    return dict(seed=seed, world=world, ops=[op], sched=sc, tier=tier, registry=registry, k_mode=k_mode)
 
 
 def _run(desc, k):
@@ -33,7 +36,7 @@ def _run(desc, k):
     hist.init_sources()
     op = copy.deepcopy(d["ops"][0])
     if k is not None:
-        op.setdefault("faults", {})["interrupt_at"] = k
+        op.setdefault("faults", {})["interrupt_at_op" if d.get("k_mode") == "op" else "interrupt_at"] = k
     tapes = d.get("tapes") or {}
     rec = machine.apply_op(hist, op, 0, tape=tapes.get("0"))
     return hist, rec
@@ -46,8 +49,14 @@ def execute(prop, desc):
     if only is None:
         hist0, rec0 = _run(desc, None)
         hists.append(hist0)
-        K = min(rec0.rt.call_starts, K_CAP[desc.get("tier", "quick")])
-        ks = list(range(1, K + 1))
+        cap = K_CAP[desc.get("tier", "quick")]
+        if desc.get("k_mode") == "op":
+            n = rec0.rt.op_starts
+            # every k when there are few operations, otherwise an evenly spread selection (first and last included)
+            ks = list(range(1, n + 1)) if n <= cap + 6 else sorted({1 + (i * (n - 1)) // (cap + 5) for i in range(cap + 6)})
+        else:
+            K = min(rec0.rt.call_starts, cap)
+            ks = list(range(1, K + 1))
         viol.extend(O.o_term(rec0, hist0.world, hist0))
     else:
         ks = [only]
